@@ -64,7 +64,12 @@ extern int mpt_fpoint_set(MPT_STRUCT(fpoint) *pt, MPT_INTERFACE(convertable) *sr
 			tmp.y = tmp.x;
 		}
 		else if ((ret = mpt_iterator_consume(it, 'f', &tmp.y)) < 0) {
-			return ret;
+			/* single value for both coordinates */
+			if (ret != MPT_ERROR(MissingData)) {
+				return ret;
+			}
+			ret = 1;
+			tmp.y = tmp.x;
 		}
 		else {
 			ret = 2;
